@@ -58,6 +58,12 @@ func removeJob(d *Desc, s, j int) {
 			}
 		}
 		jd.Deps = deps
+		switch {
+		case jd.SameDeps-1 == j:
+			jd.SameDeps = 0
+		case jd.SameDeps-1 > j:
+			jd.SameDeps--
+		}
 		if jd.Ctx == CtxOwnCancelledBy {
 			switch {
 			case jd.CtxBy == j:
@@ -166,6 +172,10 @@ func Minimise(t *testing.T, d *Desc, prop, class string, maxTrials int) (*Desc, 
 					return x
 				},
 				func(sd *SchedD) bool { x := sd.FreqSteps > 0; sd.FreqSteps = 0; return x },
+				func(sd *SchedD) bool { x := sd.WaitCtx != 0; sd.WaitCtx = 0; return x },
+				func(sd *SchedD) bool { x := sd.SharedErr; sd.SharedErr = false; return x },
+				func(sd *SchedD) bool { x := sd.CtxKind != 0; sd.CtxKind = 0; return x },
+				func(sd *SchedD) bool { x := sd.WaitDelay > 0; sd.WaitDelay /= 2; return x },
 				func(sd *SchedD) bool { x := sd.DelaySteps > 0; sd.DelaySteps /= 2; return x },
 			}
 			for _, m := range mut {
@@ -187,7 +197,8 @@ func Minimise(t *testing.T, d *Desc, prop, class string, maxTrials int) (*Desc, 
 					func(jd *JobD) bool { x := jd.Len > 0; jd.Len = 0; return x },
 					func(jd *JobD) bool { x := jd.Cancel; jd.Cancel = false; return x },
 					func(jd *JobD) bool { x := jd.Stuck; jd.Stuck = false; return x },
-					func(jd *JobD) bool { x := len(jd.Deps) > 0; jd.Deps = nil; return x },
+					func(jd *JobD) bool { x := len(jd.Deps) > 0; jd.Deps, jd.SameDeps = nil, 0; return x },
+					func(jd *JobD) bool { x := jd.SameDeps > 0; jd.SameDeps = 0; return x },
 					func(jd *JobD) bool { x := jd.Ctx != CtxShared; jd.Ctx, jd.CtxBy = CtxShared, 0; return x },
 				}
 				for _, m := range jm {
